@@ -119,15 +119,20 @@ def _extract_g(outdir, tag, features):
     raise MachineryError('G-mode(%s): driver produced no fact file' % tag)
 
 
-def _extract_m(outdir):
-    target = os.path.join(WORK, 'tm')
+def _extract_m(outdir, release=False):
+    """release=True: the same walk with debug assertions and overflow checks off (what `cargo build --release` links)"""
+    target = os.path.join(WORK, 'tm-rel' if release else 'tm')
+    odir = os.path.join(outdir, 'rel') if release else outdir
+    os.makedirs(odir, exist_ok=True)
     shutil.copyfile(os.path.join(REPO, 'Cargo.lock'), os.path.join(HARNESS, 'Cargo.lock'))
     for attempt in (0, 1):
         _rm_fingerprints(target, 'suites-')
-        env = _env({'OPQ_MODE': 'M', 'OPQ_CRATE': 'suites', 'OPQ_OUT_DIR': outdir, 'OPQ_SUITES': 'all',
-                    'CARGO_TARGET_DIR': target})
-        _run_cargo(['cargo', '+nightly', 'check', '--lib', '--offline'], HARNESS, env, 'M-mode')
-        if os.path.exists(os.path.join(outdir, 'm-DONE')):
+        extra = {'OPQ_MODE': 'M', 'OPQ_CRATE': 'suites', 'OPQ_OUT_DIR': odir, 'OPQ_SUITES': 'all', 'CARGO_TARGET_DIR': target}
+        env = _env(extra)
+        if release:
+            env['RUSTFLAGS'] += ' -Cdebug-assertions=off -Coverflow-checks=off'
+        _run_cargo(['cargo', '+nightly', 'check', '--lib', '--offline'], HARNESS, env, 'M-mode' + ('(release cfg)' if release else ''))
+        if os.path.exists(os.path.join(odir, 'm-DONE')):
             return
         shutil.rmtree(target, ignore_errors=True)
     raise MachineryError('M-mode: driver produced no fact files')
@@ -175,6 +180,8 @@ def ensure(thorough=False):
             _extract_g(outdir, 'all', G_CONFIGS['all']); did.append('G(all)')
         if not os.path.exists(os.path.join(outdir, 'm-DONE')):
             _extract_m(outdir); did.append('M')
+        if not os.path.exists(os.path.join(outdir, 'rel', 'm-DONE')):
+            _extract_m(outdir, release=True); did.append('M(release cfg)')
         if os.path.isdir(FIXTURES) and not os.path.exists(os.path.join(outdir, 'fx', 'm-DONE')):
             _extract_f(outdir); did.append('F')
         if thorough:
